@@ -725,7 +725,9 @@ class Point(object):
         return not self == other
 
     def __neg__(self):
-        return Point(self.__curve, self.__x, self.__curve.p() - self.__y)
+        if self == INFINITY:
+            return INFINITY
+        return Point(self.__curve, self.__x, -self.__y % self.__curve.p())
 
     def __add__(self, other):
         """Add one point to another point."""
